@@ -120,6 +120,10 @@ func runC14(r *R) {
 		ctxSig += "/unbounded"
 	}
 
+	emptyList := len(chosen) == 0 && w.Draw(2) == 0
+	if emptyList {
+		r.Note("chosencases-empty-list-written-out")
+	}
 	run := func(preload bool) *provOut {
 		conf := map[string]interface{}{"type": typ, "file": "/ammo/ammo.txt", "limit": limit, "passes": passes, "preload": preload}
 		if len(chosen) > 0 {
@@ -128,6 +132,9 @@ func runC14(r *R) {
 				cc[i] = c
 			}
 			conf["chosencases"] = cc
+		} else if emptyList {
+			// `chosencases: []` written out: the same as no filter
+			conf["chosencases"] = []interface{}{}
 		}
 		plans := map[string]simfs.Plan{}
 		if chunk > 0 {
